@@ -1347,6 +1347,71 @@ class Exec:
             return mk("f", "div", f64c(1.0), self.deref_value(st, args[0]))
         return None
 
+    def cond_foreign(self, st, r, args):
+        """Foreign integer / slice primitives whose result is an Option or a Result decided by a range test: a value tree
+        ("val", v) | ("if", cond, tree, tree).  checked_add/sub/mul, the integer TryFrom impls of core, <[T]>::get(usize)."""
+        if r is None:
+            return None
+        base = F.norm_path(r["def"])
+        NONE = mk("agg", ("adt", "core::option::Option", 0, "None"), ())
+        def some(v):
+            return mk("agg", ("adt", "core::option::Option", 1, "Some"), (v,))
+        m = re.match(r"^core::num::<impl (\w+)>::checked_(add|sub|mul)$", base)
+        if m and m.group(1) in INT_BITS and len(args) == 2:
+            ty = m.group(1)
+            a = self.deref_value(st, args[0]); b = self.deref_value(st, args[1])
+            pair = self.binop({"add": "AddWithOverflow", "sub": "SubWithOverflow", "mul": "MulWithOverflow"}[m.group(2)], ty, a, b)
+            res, ovf = pair[2]
+            return ("if", ovf, ("val", NONE), ("val", some(res)))
+        m = re.match(r"^core::convert::num::(?:\w+::)?<impl core::convert::TryFrom<(\w+)> for (\w+)>::try_from$", base)
+        if m and m.group(1) in INT_BITS and m.group(2) in INT_BITS and len(args) == 1:
+            T, U = m.group(1), m.group(2)
+            PTR = {"usize": "u64", "isize": "i64"}
+            def rng(ty):
+                ty = PTR.get(ty, ty); n = INT_BITS[ty]
+                return (-(1 << (n - 1)), (1 << (n - 1)) - 1) if ty.startswith("i") else (0, (1 << n) - 1)
+            (tlo, thi), (ulo, uhi) = rng(T), rng(U)
+            x = self.deref_value(st, args[0])
+            ok = ("val", mk("agg", ("adt", "core::result::Result", 0, "Ok"), (self.cast("IntToInt", T, U, x),)))
+            err = ("val", mk("agg", ("adt", "core::result::Result", 1, "Err"), (mk("agg", ("adt", "core::num::error::TryFromIntError", 0, "TryFromIntError"), (mk("unit"),)),)))
+            tree = ok
+            if uhi < thi:
+                tree = ("if", self.binop("Gt", T, x, mk_const(T, from_signed(T, uhi))), err, tree)
+            if ulo > tlo:
+                tree = ("if", self.binop("Lt", T, x, mk_const(T, from_signed(T, ulo))), err, tree)
+            return tree
+        if base.startswith("core::slice::<impl [T]>::get") and not base.startswith("core::slice::<impl [T]>::get_") and len(args) == 2 \
+                and (r.get("args") or [None, None])[1:] == ["usize"]:
+            arr = self.deref_value(st, args[0])
+            if tag(arr) == "carray":
+                mlen = re.match(r"^\[(.*); (\d+)\]$", arr[1])
+                if mlen:
+                    idx = self.deref_value(st, args[1])
+                    loc = st.alloc(); st.store[loc] = self.index(arr, idx)
+                    return ("if", self.binop("Lt", "usize", idx, mk_const("usize", int(mlen.group(2)))), ("val", some(mk("ref", loc, ()))), ("val", NONE))
+        return None
+
+    def branch_values(self, st, t, vt):
+        """continue at the call's target block with the destination holding one of several values, by cases"""
+        if vt[0] == "val":
+            self.write_place(st, st.frames[-1], t["dest"], vt[1])
+            return self.exec_block(st, t["t"])
+        c, a, b = vt[1], vt[2], vt[3]
+        while tag(c) == "not":
+            c = c[1]; a, b = b, a
+        if is_const(c):
+            return self.branch_values(st, t, a if cint(c) else b)
+        if c in st.known and type(st.known[c]) is not tuple:
+            return self.branch_values(st, t, a if st.known[c] else b)
+        if self.hooks is not None:
+            dec = self.hooks.decide(self, st, c)
+            if dec is not None:
+                st.known[c] = 1 if dec else 0
+                return self.branch_values(st, t, a if dec else b)
+        s1 = st.fork(); s1.known[c] = 1
+        s2 = st.fork(); s2.known[c] = 0
+        return ("if", c, self.branch_values(s1, t, a), self.branch_values(s2, t, b))
+
     def do_call(self, st, fr, t):
         args = [self.operand(st, fr, a) for a in t["args"]]
         if "f" not in t:
@@ -1372,6 +1437,9 @@ class Exec:
             if pv is not None:
                 self.write_place(st, fr, t["dest"], pv)
                 return None
+            cf = self.cond_foreign(st, r, args) if t["t"] is not None else None
+            if cf is not None:
+                return ("tree", self.branch_values(st, t, cf))
             tf = self.transparent_foreign(st, fr, name, r, args, t)
             if tf is not None:
                 if tf[0] == "value":
@@ -1649,6 +1717,8 @@ class Exec:
                     bi = t["t"]; continue
                 if r[0] == "enter":
                     bi = 0; continue
+                if r[0] == "tree":
+                    return r[1]
                 if r[0] == "diverge":
                     if t.get("dbg") and self.hooks is None:
                         # the failure arm of a debug_assert!: the form rules read the function as if the assertion holds
